@@ -64,18 +64,38 @@ def check_registration(ctx):
     need(red is not None and hasattr(red, "node"), "the registered reducer is not a module-level function")
     ctx.saw(red)
     ctx.ok("C20.1", mod.qualname, f"copyreg.pickle({meta.name}, {red.name}) registered at import time")
-    # base class reducer
-    rets = [x for x in walk_scope(red.node) if isinstance(x, ast.Return)]
-    base_ok = False
-    for st in ast.walk(red.node):
-        if isinstance(st, ast.If) and norm(st.test) in (f"{red.params[0]} is AbstractArray",):
-            for x in st.body:
-                if isinstance(x, ast.Return) and isinstance(x.value, ast.Tuple) and len(x.value.elts) == 2:
-                    f0 = m.resolve_expr_static(red, x.value.elts[0])
-                    if f0 is not None and hasattr(f0, "node"):
-                        r0 = [y for y in walk_scope(f0.node) if isinstance(y, ast.Return)]
-                        if len(r0) == 1 and norm(r0[0].value) == "AbstractArray":
-                            base_ok = True
+    # base class reducer: on the `x is AbstractArray` side the reducer returns (helper, ()) with
+    # helper() == AbstractArray
+    from ..absim import eval_bool, simulate
+    from ..typestate import NoReturn
+
+    g = NoReturn(m).cfg(red)
+    xn = red.params[0]
+
+    def atom_for(val):
+        def atom(e):
+            t = norm(e)
+            if t in (f"{xn} is AbstractArray", f"AbstractArray is {xn}"):
+                return val
+            if t in (f"{xn} is not AbstractArray", f"AbstractArray is not {xn}"):
+                return not val
+            return None
+        return atom
+
+    def stop(n):
+        return n.kind in ("return", "raise", "exit", "exit_e", "exit_b", "falloff")
+
+    outs = simulate(g, g.entry, stop, lambda n: eval_bool(n.ast, atom_for(True)))
+    base_ok = bool(outs)
+    for o in outs:
+        v = o.end.ast.value if o.end.kind == "return" else None
+        ok1 = False
+        if isinstance(v, ast.Tuple) and len(v.elts) == 2 and isinstance(v.elts[1], ast.Tuple) and not v.elts[1].elts:
+            f0 = m.resolve_expr_static(red, v.elts[0])
+            if f0 is not None and hasattr(f0, "node"):
+                r0 = [y for y in walk_scope(f0.node) if isinstance(y, ast.Return)]
+                ok1 = len(r0) == 1 and norm(r0[0].value) == "AbstractArray"
+        base_ok = base_ok and ok1
     if base_ok:
         ctx.ok("C20.1", red.qualname, "the base class AbstractArray is reduced by reference (helper returning AbstractArray)")
     else:
@@ -123,6 +143,23 @@ def reducer_plan(ctx, red):
         items = _resolve_local(red, args_e.elts[1])
         return gen, cats, items, loader
     raise AnalysisError(f"C20: reducer callable `{norm(fn_e)}` not recognised")
+
+
+def class_dict_fields(m, ma) -> dict:
+    """field name -> value expression of the class dictionary handed to the metaclass call in
+    _make_array: `dict(k=v, ...)`, a `{...}` display, or a name bound once to either."""
+    calls = [c for c in ast.walk(ma.node) if isinstance(c, ast.Call) and m.resolve_call(ma, c).kind == "class" and m.is_metaclass(m.resolve_call(ma, c).target)]
+    need(len(calls) == 1 and len(calls[0].args) >= 3, "_make_array: the metaclass call that creates the annotation class was not found")
+    d = calls[0].args[2]
+    if isinstance(d, ast.Name):
+        defs = c05._assignments_to(ma, d.id)
+        need(len(defs) == 1, "_make_array: class dictionary variable has several definitions")
+        d = defs[0][1]
+    if isinstance(d, ast.Call) and norm(d.func) == "dict" and not d.args:
+        return {k.arg: k.value for k in d.keywords}, d
+    if isinstance(d, ast.Dict) and all(isinstance(k, ast.Constant) and isinstance(k.value, str) for k in d.keys):
+        return {k.value: v for k, v in zip(d.keys, d.values)}, d
+    raise AnalysisError(f"_make_array: class dictionary `{short(d, 60)}` has an unrecognised form")
 
 
 def _sentinel_defs(mod) -> dict:
@@ -195,12 +232,8 @@ def check_no_sentinels(ctx):
             unpack = [e.id for e in st.targets[0].elts]
     need(unpack, "_make_array: unpack of the cached tuple not found")
     local_taint = {unpack[i] for i, t in enumerate(pos_taint) if t}
-    dict_call = None
-    for c in ast.walk(ma.node):
-        if isinstance(c, ast.Call) and isinstance(c.func, ast.Name) and c.func.id == "dict" and c.keywords:
-            dict_call = c
-    need(dict_call, "_make_array: class dictionary `dict(...)` not found")
-    field_taint = {k.arg for k in dict_call.keywords if isinstance(k.value, ast.Name) and k.value.id in local_taint}
+    fields_map, dict_call = class_dict_fields(m, ma)
+    field_taint = {k for k, v in fields_map.items() if isinstance(v, ast.Name) and v.id in local_taint}
     ctx.note(f"fields that may hold an object() sentinel: {sorted(field_taint)}")
     if not field_taint:
         raise AnalysisError("C20.2: no sentinel-capable field derived (expected dtypes / dims)")
@@ -237,8 +270,7 @@ def check_determinacy(ctx):
         _check_loader(ctx, red, loader)
     need(len(items) == 1, "C20.3: the replayed item has several definitions")
     item = items[0]
-    dict_call = [c for c in ast.walk(ma.node) if isinstance(c, ast.Call) and isinstance(c.func, ast.Name) and c.func.id == "dict" and c.keywords][0]
-    fields = {k.arg: k.value for k in dict_call.keywords}
+    fields, dict_call = class_dict_fields(m, ma)
     ctx.counters["class_dict_fields"] = len(fields)
     ctx.floor("C20.3", "class_dict_fields", 6)
     # `dtype` field is the category parameter
